@@ -257,11 +257,15 @@ def _slow_design_matrix(x, knots, spline_degree):
     # The last and first coefficients for the first and last bases, respectively,
     # get values == 0 when doing the above calculation, which causes issues when
     # using the resulting csr_matrix's data attribute; instead, explicitly set
-    # those values to a very small, non-zero value; if spline_degree==0, it's fine
+    # those values to a very small, non-zero value; if spline_degree==0, it's fine; only
+    # replace values that are actually 0 since x is not guaranteed to be sorted, in which case
+    # the first and last x-values are not the end points and their basis values are non-zero
     if spline_degree > 0:
         small_float = np.finfo(float).tiny
-        basis[spline_degree, 0] = small_float
-        basis[-(spline_degree + 1), -1] = small_float
+        if basis[spline_degree, 0] == 0:
+            basis[spline_degree, 0] = small_float
+        if basis[-(spline_degree + 1), -1] == 0:
+            basis[-(spline_degree + 1), -1] = small_float
 
     return csr_object(basis.T)
 
